@@ -711,7 +711,9 @@ func (g *gen) strExpr(sc *scope, d int) string {
 	case 7:
 		return "sub(" + s() + ", " + g.expr(sc, tInt, d-1) + ", " + g.expr(sc, tInt, d-1) + ")"
 	case 8:
-		return "string(rune(65 + (" + g.expr(sc, tInt, d-1) + " & 15)))"
+		// k0 keeps the operand non-constant: string(rune(<constant>)) is folded wrongly by gogen (a
+		// listed finding of C01/C25, decided by regress files), and would hide whatever else differs
+		return "string(rune(k0 + 65 + (" + g.expr(sc, tInt, d-1) + " & 15)))"
 	case 9:
 		return "strings.Join(" + g.expr(sc, tSliceStr, d-1) + ", " + g.strLit() + ")"
 	case 10:
